@@ -99,16 +99,29 @@ func Atomically(f func()) { atomMu.Lock(); defer atomMu.Unlock(); f() }
 // tracked per goroutine through a token the caller does not see, so HeldByMe is approximate).
 type Locker struct {
 	m        sync.Mutex
-	held     atomic.Bool
+	rw       sync.RWMutex
+	Shared   bool
+	held     atomic.Int32
 	Unlocks  int
 	OnUnlock func() // set before the lock is shared; removed only through ClearOnUnlock
 }
 
-func (l *Locker) Lock() { l.m.Lock(); l.held.Store(true) }
+func (l *Locker) Lock() {
+	if l.Shared {
+		l.rw.RLock()
+	} else {
+		l.m.Lock()
+	}
+	l.held.Add(1)
+}
 
 func (l *Locker) Unlock() {
-	l.held.Store(false)
-	l.m.Unlock()
+	l.held.Add(-1)
+	if l.Shared {
+		l.rw.RUnlock()
+	} else {
+		l.m.Unlock()
+	}
 	atomMu.Lock()
 	l.Unlocks++
 	f := l.OnUnlock
@@ -121,6 +134,6 @@ func (l *Locker) Unlock() {
 // ClearOnUnlock removes the OnUnlock callback.
 func (l *Locker) ClearOnUnlock() { atomMu.Lock(); l.OnUnlock = nil; atomMu.Unlock() }
 
-func (l *Locker) HeldByMe() bool { return l.held.Load() }
+func (l *Locker) HeldByMe() bool { return l.held.Load() > 0 }
 
 func Sends(c any) int { return -1 }
